@@ -264,7 +264,18 @@ def dcs_in(t, out=None):
     return out
 
 
-def source_of(t):
+def all_dcs(t, extra=()):
+    """dataclass nodes of the static tree, then those only the runtime trees mention (subclasses): bases come first"""
+    out, seen = [], set()
+    for tree in (t,) + tuple(extra):
+        for d in dcs_in(tree):
+            if d[2] not in seen:
+                seen.add(d[2])
+                out.append(d)
+    return out
+
+
+def source_of(t, extra=()):
     lines = ["import copy, enum", "from dataclasses import dataclass", "from pathlib import Path",
              "from typing import Dict, List, Literal, Optional, Set, Tuple, Union",
              "from simple_parsing.helpers import FrozenSerializable, Serializable, field", ""]
@@ -272,15 +283,21 @@ def source_of(t):
         lines.append(f"class {c}(enum.Enum):")
         lines += [f"    {m} = {v}" for m, v in ms]
         lines.append("")
-    for d in dcs_in(t):
-        _, kind, name, fields = d
-        if kind == "frozen":
-            lines += ["@dataclass(frozen=True)", f"class {name}(FrozenSerializable):"]
-        elif kind == "ser":
-            lines += ["@dataclass", f"class {name}(Serializable):"]
+    nodes = all_dcs(t, extra)
+    byname = {d[2]: d for d in nodes}
+    for d in nodes:
+        kind, name, fields = d[1], d[2], d[3]
+        base = d[4] if len(d) > 4 else None
+        deco = "@dataclass(frozen=True)" if kind == "frozen" else "@dataclass"
+        if base is not None:
+            parent = base
+            inherited = {f[0] for f in byname[base][3]}
         else:
-            lines += ["@dataclass", f"class {name}:"]
-        for fname, meta, dflt, ft in fields:
+            parent = {"frozen": "FrozenSerializable", "ser": "Serializable"}.get(kind)
+            inherited = set()
+        lines += [deco, f"class {name}({parent}):" if parent else f"class {name}:"]
+        own = [f for f in fields if f[0] not in inherited]
+        for fname, meta, dflt, ft in own:
             args = []
             if dflt is not None:
                 args.append(f"default_factory=_DEFAULTS[{name + '.' + fname!r}]")
@@ -291,29 +308,43 @@ def source_of(t):
             if meta["dec"] is not None:
                 args.append(f"decoding_fn=_dec({meta['dec']})")
             lines.append(f"    {fname}: {ann(ft)}" + (f" = field({', '.join(args)})" if args else ""))
+        if not own:
+            lines.append("    pass")
         lines.append("")
     return "\n".join(lines)
 
 
-def build(t):
-    """exec the classes; returns the namespace (with _META: class name -> [(fname, meta)])"""
+TYPES_MODULE = "spv_serial_types"
+
+
+def build(t, extra=(), as_module=False):
+    """exec the classes; returns the namespace (with _META: class name -> [(fname, meta)]).  as_module=True makes the
+    classes importable as TYPES_MODULE.<name> (needed for the DC_TYPE_KEY path: _locate imports the module)."""
     import copy
+    import sys
+    import types
     import typing
 
     # typing caches parametrised generics by ==, and Union[a, b] == Union[b, a]: without this, List[Union[int, str]] built
     # after List[Union[str, int]] in the same process would silently be the earlier object (other member order)
     for clear in getattr(typing, "_cleanups", []):
         clear()
-    ns = {"_DEFAULTS": {}, "_META": {}, "_KIND": {},
-          "_enc": lambda k: (lambda v: [k, type(v).__name__]),
-          "_dec": lambda k: (lambda p: [k, copy.deepcopy(p)])}
-    for d in dcs_in(t):
+    if as_module:
+        mod = types.ModuleType(TYPES_MODULE)
+        sys.modules[TYPES_MODULE] = mod
+        ns = mod.__dict__
+    else:
+        ns = {}
+    ns.update({"_DEFAULTS": {}, "_META": {}, "_KIND": {},
+               "_enc": lambda k: (lambda v: [k, type(v).__name__]),
+               "_dec": lambda k: (lambda p: [k, copy.deepcopy(p)])})
+    for d in all_dcs(t, extra):
         ns["_META"][d[2]] = [(f[0], f[1]) for f in d[3]]
         ns["_KIND"][d[2]] = d[1]
         for f in d[3]:
             if f[2] is not None:
                 ns["_DEFAULTS"][d[2] + "." + f[0]] = (lambda v: (lambda: mk(ns, v)))(f[2])
-    exec(compile(source_of(t), "<serial>", "exec", dont_inherit=True), ns)
+    exec(compile(source_of(t, extra), "<serial>", "exec", dont_inherit=True), ns)
     return ns
 
 
